@@ -48,6 +48,8 @@ func (a *area) Run(c *core.Ctx) error {
 				runFixed(c, i)
 			} else if i%9 == 4 {
 				runMonthCase(c, c.Rng(i), -1)
+			} else if i%9 == 1 {
+				runBlockCase(c, c.Rng(i))
 			} else {
 				// every 9th later case (and more with -arg region=container-boundary-multi-field, the
 				// bias of the violation search) lies in the region container-boundary-multi-field
